@@ -15,10 +15,10 @@ enum Ent { File(Arc<Vec<u8>>), Dir }
 
 /* how much a read returns: a fixed limit, or the cycle 3, 7, everything (short reads in the middle of a file are legal for io::Read) */
 #[derive(Clone, Copy, Debug)]
-pub enum Reads { Full, AtMost(usize), Cycle }
+pub enum Reads { Full, AtMost(usize), Cycle, Interrupt(usize) }      /* Interrupt(k): the k-th read fails once with ErrorKind::Interrupted */
 
 #[derive(Clone)]
-pub struct TSys { ents : Arc<Mutex<BTreeMap<String, Ent>>>, reads : Reads }
+pub struct TSys { ents : Arc<Mutex<BTreeMap<String, Ent>>>, reads : Reads, mtime : SystemTime }
 
 #[derive(Debug)]
 pub struct TFile { data : Arc<Vec<u8>>, pos : usize, reads : Reads, k : usize }
@@ -27,7 +27,8 @@ impl io::Read for TFile
     fn read(&mut self, buf : &mut [u8]) -> io::Result<usize>
     {
         let left = self.data.len() - self.pos;
-        let want = match self.reads { Reads::Full => buf.len(), Reads::AtMost(n) => n.min(buf.len()), Reads::Cycle => { self.k += 1; match self.k % 3 { 1 => 3.min(buf.len()), 2 => 7.min(buf.len()), _ => buf.len() } } };
+        if let Reads::Interrupt(k) = self.reads { self.k += 1; if self.k == k { return Err(io::Error::new(io::ErrorKind::Interrupted, "interrupted")); } }
+        let want = match self.reads { Reads::Full | Reads::Interrupt(_) => buf.len(), Reads::AtMost(n) => n.min(buf.len()), Reads::Cycle => { self.k += 1; match self.k % 3 { 1 => 3.min(buf.len()), 2 => 7.min(buf.len()), _ => buf.len() } } };
         let n = want.min(left);
         buf[..n].copy_from_slice(&self.data[self.pos..self.pos + n]);
         self.pos += n;
@@ -42,7 +43,8 @@ impl io::Write for TFile
 
 impl TSys
 {
-    pub fn new(reads : Reads) -> TSys { TSys{ents : Arc::new(Mutex::new(BTreeMap::new())), reads} }
+    pub fn new(reads : Reads) -> TSys { TSys{ents : Arc::new(Mutex::new(BTreeMap::new())), reads, mtime : SystemTime::UNIX_EPOCH + std::time::Duration::from_secs(1_600_000_000)} }
+    pub fn dated(mut self, t : SystemTime) -> TSys { self.mtime = t; self }
     pub fn put_file(&self, path : &str, data : Vec<u8>) { self.ents.lock().unwrap().insert(path.to_string(), Ent::File(Arc::new(data))); }
     pub fn put_dir(&self, path : &str) { self.ents.lock().unwrap().insert(path.to_string(), Ent::Dir); }
     pub fn put_tree(&self, path : &str, t : &Vec<Node>)
@@ -80,7 +82,7 @@ impl System for TSys
         Ok(v)
     }
     fn rename(&mut self, _from : &str, _to : &str) -> Result<(), SystemError> { Err(SystemError::NotImplemented) }
-    fn get_modified(&self, _path : &str) -> Result<SystemTime, SystemError> { Ok(SystemTime::UNIX_EPOCH) }
+    fn get_modified(&self, _path : &str) -> Result<SystemTime, SystemError> { Ok(self.mtime) }
     fn is_executable(&self, _path : &str) -> Result<bool, SystemError> { Ok(false) }
     fn set_is_executable(&mut self, _path : &str, _executable : bool) -> Result<(), SystemError> { Err(SystemError::NotImplemented) }
     fn execute_command(&mut self, _command_script : CommandScript) -> Vec<Result<CommandLineOutput, SystemError>> { vec![] }
@@ -94,6 +96,19 @@ fn hash_path(sys : &TSys, path : &str) -> Value
     match guarded(move || TicketFactory::from_path(&s, &p).map(|mut f| f.result().human_readable()))
     {
         Some(Ok(text)) => json!({"ok" : true, "out" : chars_json(&text)}),
+        Some(Err(e)) => json!({"ok" : false, "out" : [], "err" : format!("{}", e)}),
+        None => json!({"ok" : false, "out" : [], "err" : "panic"}),
+    }
+}
+
+/* the hash ruler assigns to a file during a build: blob::get_file_ticket with what it remembers about the file (the modification-time shortcut) */
+fn assigned_ticket(sys : &TSys, path : &str, remembered : crate::blob::FileState) -> Value
+{
+    let s = sys.clone(); let p = path.to_string();
+    match guarded(move || crate::blob::get_file_ticket(&s, &p, &remembered))
+    {
+        Some(Ok(Some(t))) => json!({"ok" : true, "out" : chars_json(&t.human_readable())}),
+        Some(Ok(None)) => json!({"ok" : false, "out" : [], "err" : "no file"}),
         Some(Err(e)) => json!({"ok" : false, "out" : [], "err" : format!("{}", e)}),
         None => json!({"ok" : false, "out" : [], "err" : "panic"}),
     }
@@ -119,8 +134,30 @@ pub fn ticket_cases(thorough : bool, seed : u64) -> Vec<Value>
             let path = PATHS[(k + j) % PATHS.len()];
             sys.put_file(path, bytes.clone());
             let mut o = hash_path(&sys, path);
-            o["via"] = json!(format!("{:?} at {}", pol, path));
+            o["via"] = json!(format!("{:?} at {}", pol, path)); o["fault"] = json!(false);
             outs.push(o);
+        }
+        if n <= 1100 && k % 3 == 0
+        {   /* the same file as ruler sees it during a build, with nothing remembered about it: dated 1970-01-01T00:00:00Z, one day
+               earlier, one second later, and now; and with a remembered state of another age */
+            let epoch = SystemTime::UNIX_EPOCH;
+            for (what, t) in [("dated 1970-01-01", epoch), ("dated 1969-12-31", epoch - std::time::Duration::from_secs(86400)), ("dated one second after 1970", epoch + std::time::Duration::from_secs(1)), ("dated 2020", epoch + std::time::Duration::from_secs(1_600_000_000))]
+            {
+                let sys = TSys::new(Reads::Full).dated(t); sys.put_file("f", bytes.clone());
+                let mut o = assigned_ticket(&sys, "f", crate::blob::FileState::empty());
+                o["via"] = json!(format!("get_file_ticket, nothing remembered, file {}", what)); o["fault"] = json!(false);
+                outs.push(o);
+            }
+        }
+        if n >= 1 && k % 5 == 0
+        {   /* a read that fails once with EINTR: an error is fine, a retry is fine, another hash is not */
+            for kth in [1usize, 2, 1 + (n + 255) / 256]
+            {
+                let sys = TSys::new(Reads::Interrupt(kth)); sys.put_file("f", bytes.clone());
+                let mut o = hash_path(&sys, "f");
+                o["via"] = json!(format!("read number {} interrupted once", kth)); o["fault"] = json!(true);
+                outs.push(o);
+            }
         }
         recs.push(json!({"id" : format!("file.{}.{}", n, k), "kind" : "file", "bytes" : bytes, "outs" : outs}));
     }
@@ -179,7 +216,7 @@ pub fn ticket_cases(thorough : bool, seed : u64) -> Vec<Value>
         let s1 = TSys::new(POLICIES[k % POLICIES.len()]); s1.put_tree(root, &t1);
         let s2 = TSys::new(Reads::Full); s2.put_tree(root, &t2);
         let (o1, o2) = (hash_path(&s1, root), hash_path(&s2, root));
-        recs.push(json!({"id" : format!("dir.{}", k), "kind" : "dirpair", "root" : root.as_bytes(), "what" : what, "t1" : gen_ticket::tree_json(&t1), "t2" : gen_ticket::tree_json(&t2),
+        recs.push(json!({"id" : format!("dir.{}", k), "kind" : "dirpair", "odd" : false, "root" : root.as_bytes(), "what" : what, "t1" : gen_ticket::tree_json(&t1), "t2" : gen_ticket::tree_json(&t2),
                          "ok1" : o1["ok"], "h1" : o1["out"], "ok2" : o2["ok"], "h2" : o2["out"]}));
     }
     recs
